@@ -28,9 +28,14 @@ for bits in (1024, 2048):
             blob = encrypt_metadata(m, pub)
             got = decrypt_metadata(blob, priv)
             ok = n <= limit and all(getattr(got, k) == v for k, v in want.items()) and got.size == 51 + n and got.magic == 0xBEEF
+            why = None
         except ValueError:
-            ok = n > limit
-        comp.case((bits, n), ok, sample={"bits": bits, "info_len": n}, witness={"bits": bits, "info_len": n})
+            ok, why = n > limit, "ValueError"
+        except Exception as ex:     # noqa
+            ok, why = False, repr(ex)[:300]
+        comp.case((bits, n), ok, sample={"bits": bits, "info_len": n},
+                  witness={"bits": bits, "info_len": n, "fields": {k: (v.hex() if isinstance(v, bytes) else v) for k, v in want.items()},
+                           "why": why})
     # non-decryptable blobs -> ValueError
     for blob in (bytes(pub.size_in_bytes()), b"\xff" * pub.size_in_bytes(), b"short", bytes(rng.randrange(256) for _ in range(pub.size_in_bytes()))):
         try:
